@@ -392,15 +392,17 @@ def playback(scratch, h, logdir):
     rc, _ = _cargo_kani(scratch, h.crate, [h], flags + ["-Z", "concrete-playback", "--concrete-playback=print"], log, timeout=h.timeout + 600)
     txt = open(log, errors="replace").read()
     blocks = re.findall(r"Concrete playback unit test for `[^`]*`:\s*```\n(.*?)```", txt, re.S)
-    # keep the tests that belong to failed checks, not to satisfied cover properties
-    blocks = [b for b in blocks if not re.search(r"Check for `cover`", b)]
+    # tests of failed checks first, then those labelled with a cover property: Kani de-duplicates
+    # identical inputs, so the input of a failed assertion may be filed under a cover it also hits
+    # (a cover test passes natively on correct code, so running it is harmless)
+    blocks = [b for b in blocks if not re.search(r"Check for `cover`", b)] + [b for b in blocks if re.search(r"Check for `cover`", b)]
     seen, uniq = set(), []
     for b in blocks:
         m = re.search(r"fn (kani_concrete_playback_[A-Za-z0-9_]+)", b)
         if m and m.group(1) not in seen:
             seen.add(m.group(1))
             uniq.append(b)
-    blocks = uniq[:4]
+    blocks = uniq[:8]
     if not blocks:
         return None, "", "", "kani produced no concrete playback test"
     tests_src = "\n".join(blocks)
